@@ -89,3 +89,22 @@ func init() {
 		absSigs:     map[string]string{"ofBytes": "Bytes → H", "hashString": "H → Bytes", "b64dec": "Bytes → (Bytes × Option String)"},
 	})
 }
+
+func init() {
+	g2lUnits = append(g2lUnits, &g2lUnit{
+		out: "FnNote", ns: "Note", pkgDir: "sumdb/note",
+		imports:     []string{"ModVerif.Basic.GoRtNote", "ModVerif.Generated.Facts"},
+		structNames: []string{"Signature", "Note", "nameHash", "Verifier"},
+		ifaceStructs: map[string]string{"Verifier": "/-- `type Verifier interface` -/\nstructure Verifier where\n  Name : Bytes\n  KeyHash : Int\n  Verify : Bytes → Bytes → Bool\ninstance : Inhabited Verifier := ⟨{ Name := [], KeyHash := 0, Verify := fun _ _ => false }⟩\n"},
+		ifaces:       map[string]string{"Verifiers": "Bytes → Int → (Verifier × Option String)"},
+		nonNilIfaces: map[string]bool{"Verifiers": true},
+		errCarry:     map[string]bool{"UnverifiedNoteError": true},
+		errFields:    map[string]bool{"InvalidSignatureError": true},
+		fns:          []string{"isValidName", "chop", "Open"},
+		absFuncs:     map[string]string{"unicode.IsSpace": "isSpace"},
+		absCalls:     map[string]string{"base64.StdEncoding.DecodeString": "b64dec"},
+		stdCalls:     map[string]stdFn{"binary.BigEndian.Uint32": {"beUint32", true}},
+		absSigs:      map[string]string{"isSpace": "Int → Bool", "b64dec": "Bytes → (Bytes × Option String)"},
+		pkgVars:      map[string]string{"sigSplit": "(ModVerif.Generated.note_sigSplit)", "sigPrefix": "(ModVerif.Generated.note_sigPrefix)"},
+	})
+}
